@@ -325,6 +325,11 @@ def z_r3_writer_shape(p: Project, rep: Report):
                 inner = list(it[0][1][2])
                 if len(inner) == 1 and inner[0][0] is rx.sre_c.IN:
                     cs = rx.charset(inner[0][1])
+        if cs is not None:
+            mn_, mx_ = it[0][1][0], it[0][1][1]
+            # the writer emits a sign and one or two digits ('+5', '-12', '+14'): up to three characters
+            okl = mn_ <= 2 and (mx_ == rx.sre_c.MAXREPEAT or mx_ >= 3)
+            rep.check("Z-R3", f"{clsname}.regex:offset-hours-length", okl, f"the offset-hours group admits {mn_}..{mx_} characters of [digits, sign]: the writer emits the sign and up to two digits ('+10' .. '+14', '-10' .. '-12' are three characters), so its own output for zones ten or more hours from UTC is refused" if not okl else "", r.where)
         ok = cs is not None and set("0123456789+-") <= cs
         rep.check("Z-R3", f"{clsname}.regex:offset-hours-class", ok, f"offset hours admit {sorted(cs) if cs else None}; the writer emits digits and a sign" if not ok else "", r.where)
         lang = r.language("gmt_offset_minutes")
